@@ -36,6 +36,11 @@ TRUSTED = [
     'exp(i angle z)=z/|z|, angle(+0.0)=0, angle(-0.0)=pi; numpy matrix products of the reconstruction oracle',
 ]
 ASSUMPTIONS = [
+    'weak-pairing Bogoliubov inputs (left block with smallest singular value 2e-2 .. 2e-6, exactly ONE pairing rotation, left block '
+    'not exactly singular): reconstruction tolerance 1e-3 instead of 1e-9 - the library prunes quantities below EQ_TOLERANCE = 1e-8 '
+    'and that truncation is amplified by the condition number of the left block (<= 3.7e-6 measured on the unmodified code); a '
+    'skipped particle-hole transformation leaves exact zeros in the diagonal (deviation 1)',
+    'single-precision inputs (float32 / complex64) of the robust stream: tolerance 1e-5',
     'float comparisons use absolute tolerance 1e-9 and only on inputs whose every branch test |x| <> EQ_TOLERANCE is decided '
     'identically by the Model for tolerances 1e-5, 1e-8 and 1e-908 (i.e. every tested entry is exactly zero or >= 1e-5: the '
     'exact-regime hypothesis of the theorems; other inputs are discarded and counted)',
